@@ -1322,6 +1322,10 @@ namespace Pistache::Async
             {
                 std::lock_guard<std::mutex> guard(data->mtx);
 
+                // only the first rejection counts
+                if (data->rejected)
+                    return;
+
                 data->rejected = true;
                 data->reject(exc);
             }
@@ -1382,6 +1386,10 @@ namespace Pistache::Async
             static void reject(std::exception_ptr exc, Data& data)
             {
                 std::lock_guard<std::mutex> guard(data->mtx);
+
+                // the first outcome has been taken: later ones are ignored
+                if (data->done)
+                    return;
 
                 data->done = true;
                 data->reject(exc);
